@@ -180,27 +180,44 @@ def free_monoid_case(H, L, shape, dim, api, left, kind='contig', algebra='seq'):
         H.prove(name + '/inplace_overwrites', [], same, replay=rp, key='C12/inplace')
 
 
-def lie_case(H, g, L, api, left, method):
-    """LieTensor cumprod/cummul(+_) with symbolic group elements vs the ordered group-product fold"""
+def lie_case(H, g, L, api, left, method, lshape=None, dim=0, unit=True):
+    """LieTensor cumprod/cummul(+_) with symbolic group elements vs the ordered group-product fold.
+    lshape/dim: batch shape of the LieTensor and the (possibly negative) dimension scanned, lshape[dim] == L;
+    unit=False: the quaternion parts are arbitrary (SO3 / RxSO3 products are associative for any quaternion, and "exactly the
+    ordered product" leaves no room for a re-normalisation)"""
+    lshape = (L,) if lshape is None else tuple(lshape)
+    ax = dim if dim >= 0 else dim + 1          # negative dims count the parameter axis too
+    assert lshape[ax] == L
     name = 'C12/lie/%s/%s/L=%d/left=%s/%s' % (g, api, L, left, 'method' if method else 'function')
+    if lshape != (L,) or dim != 0:
+        name += '/lshape=%s/dim=%d' % ('x'.join(map(str, lshape)), dim)
+    if not unit:
+        name += '/non-unit-quaternions'
+    nel = 1
+    for s_ in lshape:
+        nel *= s_
+    ids = torch.arange(nel).view(lshape).movedim(ax, 0).reshape(L, -1)      # [position, lane] -> flat element id
 
     def prog(m):
-        X = rand_group(g, 40 + L, shape=(L,))
+        X = rand_group(g, 40 + L, shape=lshape)
+        if not unit:
+            X = pp.LieTensor(X.tensor() * (1 + 0.3 * torch.rand(lshape + (1,), dtype=X.dtype, generator=torch.Generator().manual_seed(5))), ltype=X.ltype)
         xs = m.symbolic(X, 'x')
-        for i in range(L):
-            m.ctx.assume += valid(g, xs[i * GDIM[g]:(i + 1) * GDIM[g]])
+        for i in range(nel):
+            if unit:
+                m.ctx.assume += valid(g, xs[i * GDIM[g]:(i + 1) * GDIM[g]])
         inp = X.clone() if api.endswith('_') else X
         if method:
-            Y = getattr(inp, api)(0, left=left)
+            Y = getattr(inp, api)(dim, left=left)
         else:
-            Y = getattr(pp, api)(inp, 0, left=left)
+            Y = getattr(pp, api)(inp, dim, left=left)
         return m.full_terms(Y.tensor()), m.full_terms(inp.tensor()), xs, m, Y
 
     try:
         for ctx, (y, after, xs, m, Y) in run_paths(H, name, prog):
             selftest(H, ctx, m, [(y, Y.tensor())], name)
             n = GDIM[g]
-            items = [xs[i * n:(i + 1) * n] for i in range(L)]
+            elem = lambda e: xs[e * n:(e + 1) * n]
 
             def gmul(a, b):
                 ta, qa, sa = parts(g, a)
@@ -216,13 +233,16 @@ def lie_case(H, g, L, api, left, method):
                 if sa is not None:
                     out.append(sa * sb)
                 return out
-            acc = items[0]
-            folds = [acc]
-            for i in range(1, L):
-                acc = gmul(items[i], acc) if left else gmul(acc, items[i])
-                folds.append(acc)
-            flat_or = [t for f in folds for t in f]
-            rels = [unit_rel(g, it) for it in items]
+            want = {}
+            for c in range(ids.shape[1]):
+                items = [elem(ids[i, c].item()) for i in range(L)]
+                acc = items[0]
+                want[ids[0, c].item()] = acc
+                for i in range(1, L):
+                    acc = gmul(items[i], acc) if left else gmul(acc, items[i])
+                    want[ids[i, c].item()] = acc
+            flat_or = [t for e in range(nel) for t in want[e]]
+            rels = [unit_rel(g, elem(e)) for e in range(nel)] if unit else []
             hyp = H.hyps_of(ctx)
             for i, (l, r) in enumerate(zip(y, flat_or)):
                 H.certify('%s[%d]' % (name, i), l, r, rels, key='C12/lie/%s' % api, hyps=hyp)
@@ -235,12 +255,12 @@ def lie_case(H, g, L, api, left, method):
     except Exception as e:
         # an exception for a legal length is itself a violation if it reproduces without the engine
         try:
-            X = rand_group(g, 40 + L, shape=(L,))
-            getattr(pp, api)(X.clone(), 0, left=left)
+            X = rand_group(g, 40 + L, shape=lshape)
+            getattr(pp, api)(X.clone(), dim, left=left)
             H.engine_error(name, e)
         except Exception as e2:
             H.violation('C12/raises/%s' % api, '%s raised %s: %s' % (name, type(e2).__name__, str(e2)[:120]),
-                        {'group': g, 'L': L, 'api': api})
+                        {'group': g, 'L': L, 'api': api, 'lshape': list(lshape), 'dim': dim})
 
 
 def matrix_case(H, L, api, left):
@@ -302,7 +322,7 @@ def run(H):
     H.bounds += ['lengths L in %s; L <= 65 with z3 sequences, larger L with the range algebra of contiguous products' % (
         '1..33 and the neighbours of every power of two up to 4096' if H.quick else '1..1025 and the neighbours of powers of two up to 4096'),
                  'views: contiguous, transposed, strided, column block',
-                 'tensor ranks 1..3 (rank 4 in thorough), every dim incl. negative', 'LieTensor variants: L <= %d' % (3 if H.quick else 5), 'plain-tensor wrappers: stacks of 2-3 (thorough 5) symbolic 2x2 matrices']
+                 'tensor ranks 1..3 (rank 4 in thorough), every dim incl. negative', 'LieTensor variants: L <= %d; lshapes (L,), (2,2), (2,3), (3,2) with positive and negative dims; SO3/RxSO3 also with non-unit quaternions' % (3 if H.quick else 5), 'plain-tensor wrappers: stacks of 2-3 (thorough 5) symbolic 2x2 matrices']
     for L in Ls:
         for api in ('cumops', 'cumops_'):
             free_monoid_case(H, L, (L,), 0, api, True, algebra=('seq' if L <= 65 else 'range'))
@@ -329,6 +349,17 @@ def run(H):
                 for left in (True, False):
                     for method in ((False, True) if L == 3 or not H.quick else (False,)):
                         lie_case(H, g, L, api, left, method)
+    # configurations: batch rank 2, every dim (negative ones too: torch semantics, counted over the lshape); arbitrary quaternions
+    # (a negative dim counts over the full tensor shape, parameter axis included, as in torch: -2 is the last batch axis)
+    for g, lshape, dim in (('SO3', (2, 2), -2), ('SO3', (2, 2), -3), ('SE3', (2, 2), 1), ('SE3', (2, 3), -2), ('RxSO3', (3, 2), -3), ('Sim3', (2, 2), 0)):
+        ax = dim if dim >= 0 else dim + 1
+        for api in (('cumprod', 'cummul_') if H.quick else ('cumprod', 'cumprod_', 'cummul', 'cummul_')):
+            lie_case(H, g, lshape[ax], api, True, True, lshape=lshape, dim=dim)
+            if not H.quick:
+                lie_case(H, g, lshape[ax], api, False, False, lshape=lshape, dim=dim)
+    for g in ('SO3', 'RxSO3'):
+        for api in ('cumprod', 'cumprod_', 'cummul'):
+            lie_case(H, g, 3, api, api != 'cummul', False, unit=False)
     # plain-tensor wrappers: matrix product for cumprod, elementwise product for cummul, both operand orders
     for L in ((2, 3) if H.quick else (2, 3, 4, 5)):
         for api in ('cumprod', 'cumprod_', 'cummul', 'cummul_'):
